@@ -870,6 +870,21 @@ theorem C11_cex_stale_replica :
     (statusOf (evsOf [TAOp.add cexW1, .add cexW2, .setReplicas 0 [(100, [cexW2])], .hostDown cexW2]) cexW2).expected true = false := by
   decide
 
+def cexS1 : Host := ⟨1, 1, 0, 0, [100]⟩
+def cexS2 : Host := ⟨2, 2, 0, 0, [200]⟩
+/-- COUNTEREXAMPLE for what stays excluded also on the SESSION keyspace (kernel-checked), KF-C11-5b: round-robin
+fallback, session keyspace 0 with SimpleStrategy rf 1 (table computed by the policy itself: 100 → [1], 200 → [2]);
+after `HostDown(2)` with the `HostInfo` state still up, a routed query of the session keyspace is offered host 2
+first although the history does not expect it — `HostDown` refreshes nothing. (After `RemoveHost(2)` it is not:
+the example after `C11_history_exact_partial`.) -/
+theorem C11_cex_stale_down_session :
+    let ops := [TAOp.setMeta 0 (some (some 1)), .add cexS1, .add cexS2, .hostDown cexS2]
+    let t := ops.foldl TA.apply (TA.new (Pol.new .rr 0 0) false false true (some 0))
+    t.replicas = [(0, [(100, [cexS1]), (200, [cexS2])])] ∧
+    t.pickScan (fun _ => true) id (some (0, 150)) = ⟨[cexS2, cexS1], false⟩ ∧
+    (statusOf (evsOf ops) cexS2).expected true = false ∧ (statusOf (evsOf ops) cexS2).known = true := by
+  decide
+
 /-- non-vacuity: the history add, down, add (what `Session.startPoolFill` does on a node-up event) — the host
 is expected and offered, routed or not -/
 example :
